@@ -64,8 +64,10 @@ Proof.
     assert (Hk : k <= length (aq_q c1 a)).
     { cbn. apply Nat.lt_le_incl. apply nth_error_Some. rewrite Hn. discriminate. }
     destruct (deliver_cases a p (pbasis c p) k true c1 Hb Hk) as [(d & E)|(o & E)]; rewrite E.
-    + cbn. unfold upd. rewrite !Nat.eqb_refl. split; auto. left. split; eauto.
-    + cbn. unfold upd. rewrite !Nat.eqb_refl. split; auto. right. split; eauto.
+    + match goal with |- context [if ?b then _ else _] => destruct b end;
+        cbn; unfold upd; rewrite !Nat.eqb_refl; (split; auto); left; split; eauto.
+    + match goal with |- context [if ?b then _ else _] => destruct b end;
+        cbn; unfold upd; rewrite !Nat.eqb_refl; (split; auto); right; split; eauto.
 Qed.
 
 (* a call that arrived while the queue was draining is passed through only when the drain loop
@@ -82,4 +84,16 @@ Proof.
   - cbn. unfold upd. rewrite !Nat.eqb_refl. auto.
   - unfold ready_closed in Er. destruct (aq_ph c (proot c p)) eqn:Eph; try congruence.
     split; auto. apply (queue_order_complete_lemma P); auto.
+Qed.
+
+(* a call that arrives while the queue of its answer is draining (also while the drain loop is
+   blocked in a target that has not acknowledged delivery) is neither queued nor delivered: it
+   waits for the end of the drain (PWaitReady), see passthrough_after_queue_lemma *)
+Lemma arrival_during_drain_lemma : forall P c p c' on a b, step P c (TPipe p) = Some c' ->
+  p_kind P p = Pipe on -> ppc c p = PInit -> pipe_target P c on = Some (a, b) -> aq_ph c a <> AQueueing ->
+  ppc c' p = PWaitReady /\ proot c' p = a /\ trace c' = EvIssue p :: trace c.
+Proof.
+  intros P c p c' on a b H K Hp Ht Hph. simpl in H. unfold step_pipe in H. rewrite K, Hp, Ht in H.
+  destruct (pred_done P c p); try discriminate.
+  cbn in H. destruct (aq_ph c a); try congruence; inv_some; cbn; unfold upd; rewrite !Nat.eqb_refl; auto.
 Qed.
